@@ -11,6 +11,9 @@ from vlib import hx, md5
 U64 = 1 << 64
 BSIZE = {0: 65536, 4: 65536, 5: 262144, 6: 1048576, 7: 4194304}
 ERRNAME = {20: "compressionState_uninitialized", 14: "frameSize_wrong", 11: "dstMaxSize_tooSmall"}
+BAD_BSID = [1, 2, 3, 3, 8, 9, 12, 100, -1, 65536]
+def bsid_ok(b):
+    return b in (0, 4, 5, 6, 7)
 PREF_KEYS = ["bsid", "blockMode", "ccrc", "contentSize", "dictID", "bcrc", "level", "autoFlush", "favorDec"]
 
 # ------------------------------------------------------------------ generation
@@ -29,6 +32,8 @@ def gen_prefs(rng, tier, force=None):
          "level": rng.choice([-3, -1, 0, 0, 1, 1, 1, 2, 3, 3, 4, 6, 9, 10, 12] if tier != "thorough" else list(range(-3, 13))),
          "autoFlush": rng.choice([0, 0, 1]),
          "favorDec": rng.choice([0, 0, 1])}
+    if rng.random() < 0.05:
+        p["bsid"] = rng.choice(BAD_BSID)       # outside the enum: compressBegin*/compressFrame* must refuse (F15)
     if force:
         p.update(force)
     return p
@@ -36,9 +41,12 @@ def gen_prefs(rng, tier, force=None):
 def pstr(p):
     return "null" if p is None else ",".join(str(p[k]) for k in PREF_KEYS)
 
-def cprefs(p):
+def cprefs(p, sane=False):
+    """ctypes preferences; sane=True replaces an invalid block size id by the largest valid one (used only to size buffers)"""
     if p is None:
         return None
+    if sane and not bsid_ok(p["bsid"]):
+        p = dict(p, bsid=7)
     q = Prefs()
     q.blockSizeID = p["bsid"]; q.blockMode = p["blockMode"]; q.contentChecksumFlag = p["ccrc"]
     q.contentSize = p["contentSize"]; q.dictID = p["dictID"]; q.blockChecksumFlag = p["bcrc"]
@@ -183,19 +191,29 @@ SRC_MODES = ["fresh_free", "fresh_overwrite", "fresh_overwrite", "same_buffer", 
 
 def equal_size_input(rng, L):
     """an input whose LZ4 block (fast, acceleration 1, no history) has exactly the size of the input:
-    the producer must store it uncompressed (the format wants compressed blocks to be smaller)"""
-    for _ in range(200):
+    the producer must store it uncompressed (the format wants compressed blocks to be smaller).
+    Shape: random head, a run (one match), random tail; the run length moves the balance by one byte per
+    step once the match exists, the tail length by one byte at each literal-length extension (15, 270, ...)."""
+    def csize(data):
+        src = Buf(0, data=data); dst = Buf(L.compressBound(len(data)))
+        r = L.compress_default(src.p, dst.p, len(data), dst.n)
+        src.free(); dst.free()
+        return r
+    for _ in range(20):
         m = rng.choice([20, 100, 300, 1000, 3000])
         head = rng.randbytes(m)
-        for k in range(5, 80):
-            data = head + bytes([head[-1]]) * k + rng.randbytes(6)
-            src = Buf(0, data=data); dst = Buf(L.compressBound(len(data)))
-            r = L.compress_default(src.p, dst.p, len(data), dst.n)
-            src.free(); dst.free()
-            if r == len(data):
-                return data
-            if r < len(data):
+        tails = [rng.randbytes(t) for t in (6, 15, 270, 525, 780)]
+        for k in range(5, 60):
+            body = head + bytes([head[-1]]) * k
+            d0 = csize(body + tails[0]) - (len(body) + 6)
+            if d0 > 0:
+                continue
+            if d0 < -4:
                 break
+            for tl in tails:
+                data = body + tl
+                if csize(data) == len(data):
+                    return data
     return None
 
 def gen_frame_equalsize(rng, tier, L):
@@ -210,7 +228,7 @@ def gen_frame_equalsize(rng, tier, L):
 def gen_frame(rng, tier, big=False):
     """one streaming frame: prefs, dictionary kind, op script with data"""
     p = gen_prefs(rng, tier)
-    bs = BSIZE[p["bsid"]]
+    bs = BSIZE.get(p["bsid"], 65536)
     kind = rng.choice(SCRIPT_KINDS)
     if kind == "switch":
         p["blockMode"] = 1
@@ -332,7 +350,7 @@ class CSession:
         return b.p, 0, cleanup
     def update(self, p, data, unc, mode, whole, off, extra_cap, future=None):
         L = self.L
-        q = cprefs(p)
+        q = cprefs(p, sane=True)
         cap = L.F_compressBound(len(data), byref(q) if q is not None else None) + extra_cap
         dst = Buf(cap, fill=0xA5)
         ptr, stable, cleanup = self.src_buffer(mode, data, whole, off, future)
@@ -345,7 +363,7 @@ class CSession:
         return res
     def flush(self, p, end=False):
         L = self.L
-        q = cprefs(p)
+        q = cprefs(p, sane=True)
         cap = L.F_compressBound(0, byref(q) if q is not None else None)
         dst = Buf(cap, fill=0xA5)
         r = (L.F_compressEnd if end else L.F_flush)(self.ctx, dst.p, cap, None)
@@ -356,7 +374,8 @@ class CSession:
         L = self.L
         q = cprefs(p)
         qp = byref(q) if q is not None else None
-        cap = L.F_compressFrameBound(len(data), qp)
+        qs = cprefs(p, sane=True)
+        cap = L.F_compressFrameBound(len(data), byref(qs) if qs is not None else None)
         dst = Buf(cap, fill=0xA5)
         src = Buf(0, data=data)
         if fresh:
@@ -430,7 +449,7 @@ def run_frame(st, cs, fr, res, tier):
     pp = None if fr.get("nullprefs") else p
     bcrc, ccrc = (p["bcrc"], p["ccrc"]) if pp is not None else (0, 0)
     eff = p if pp is not None else {k: 0 for k in PREF_KEYS}
-    bs = BSIZE[eff["bsid"]]
+    bs = BSIZE.get(eff["bsid"], 65536)
     outs = []
     blocks = []
     model = {"on": st.get("model_on", True)}
@@ -448,6 +467,13 @@ def run_frame(st, cs, fr, res, tier):
         d = cmp_model(resp, ret, out, L)
         if d:
             corr("compressBegin: " + d)
+    if not bsid_ok(eff["bsid"]):
+        res["stats"]["begin_bad_bsid"] += 1
+        if not L.F_isError(ret):
+            fail("prop_fail", "compressBegin accepts the invalid blockSizeID %d and writes the header %s (F15)" % (eff["bsid"], out.hex()))
+        elif U64 - ret != 2:
+            fail("prop_fail", "compressBegin answers %s to the invalid blockSizeID %d, expected ERROR_maxBlockSize_invalid" % (L.F_getErrorName(ret).decode(), eff["bsid"]))
+        return None, None, False, None
     if L.F_isError(ret):
         fail("prop_fail", "compressBegin fails with %s on preferences within the documented ranges" % L.F_getErrorName(ret).decode())
         return None, None, False, None
@@ -752,8 +778,6 @@ def run_session_case(st, case, which):
                 stray_ops(st, cs, rng, res, None)
             for fi in range(nframes):
                 fr = gen_frame(rng, tier, big=case.get("big", False))
-                if rng.random() < 0.06:
-                    fr = gen_frame_equalsize(rng, tier, L) or fr
                 if case.get("force"):
                     fr["prefs"].update(case["force"])
                 if rng.random() < 0.05:
@@ -771,7 +795,9 @@ def run_session_case(st, case, which):
                 if F is None:
                     if res["fails"]:
                         break
-                    continue        # frame legitimately ended in an error (frameSize_wrong)
+                    if rng.random() < 0.5:
+                        stray_ops(st, cs, rng, res, fr["prefs"])
+                    continue        # frame legitimately ended in an error (frameSize_wrong, refused blockSizeID)
                 res["stats"]["frames"] += 1
                 res["stats"]["bytes_in"] += len(X)
                 if len(blocks) >= 2 or fr["dk"] != "n" or any(o == "n" for o, _ in fr["script"]):
@@ -784,9 +810,79 @@ def run_session_case(st, case, which):
         elif kind == "oneshot":
             for _ in range(case.get("count", 4)):
                 oneshot(st, cs, rng, res, which, tier)
+        elif kind == "corpus":
+            corpus_case(st, cs, case, res)
+        elif kind == "equalsize":
+            for _ in range(case.get("count", 3)):
+                fr = gen_frame_equalsize(rng, tier, L)
+                if fr is None:
+                    res["stats"]["equalsize_not_found"] += 1
+                    continue
+                res["stats"]["kind_equalsize"] += 1
+                F, X, ok, blocks = run_frame(st, cs, fr, res, tier)
+                if F is None:
+                    break
+                res["stats"]["frames"] += 1
+                res["keys"].add(frame_key(fr, len(blocks)))
+                direct(st, rng, which, fr["prefs"], fr["dict"], F, X, blocks, res, tier,
+                       {"prefs": pstr(fr["prefs"]), "kind": "equalsize", "n": len(X), "script": fr["script"]})
     finally:
         cs.close()
     return finish(res, kind)
+
+CORPUS = [
+    # F15: blockSizeID outside {0,4..7} was accepted by LZ4F_compressBegin_internal (fixed in /repo, commit "reject an invalid blockSizeID")
+    {"kind": "corpus", "id": "f15_compressFrame_bsid3", "seed": 15, "tier": "quick"},
+    {"kind": "corpus", "id": "f15_stream_bsid3_linked_noautoflush", "seed": 15, "tier": "quick"},
+    {"kind": "corpus", "id": "f15_stream_bsid3_autoflush", "seed": 15, "tier": "quick"},
+]
+
+def corpus_case(st, cs, case, res):
+    """fixed regression cases of repaired defects: each must report a violation again if the repair is reverted"""
+    L, orc = st["L"], st["oracle"]
+    cid = case["id"]
+    res["stats"]["corpus_" + cid] += 1
+    X = bytes(range(256)) * 400
+    if cid == "f15_compressFrame_bsid3":
+        p = {k: 0 for k in PREF_KEYS}; p["bsid"] = 3; p["autoFlush"] = 1
+        q = cprefs(p)
+        dst = Buf(300000, fill=0xA5); src = Buf(0, data=X)
+        r = L.F_compressFrame(dst.p, 300000, src.p, len(X), byref(q))
+        res["evals"] += 1
+        if not L.F_isError(r):
+            F = dst.bytes(r)
+            dec = orc.ask("frame", "0", "0", "-", hx(F))
+            res["fails"].append({"status": "prop_fail", "what": "LZ4F_compressFrame with blockSizeID 3 returns %d bytes (header %s) instead of ERROR_maxBlockSize_invalid; "
+                                 "the format decoder says '%s' (F15 reverted?)" % (r, F[:7].hex(), dec[:40]), "detail": {"corpus": cid}})
+        elif U64 - r != 2:
+            res["fails"].append({"status": "prop_fail", "what": "LZ4F_compressFrame with blockSizeID 3 answers %s" % L.F_getErrorName(r).decode(), "detail": {"corpus": cid}})
+        resp = orc.ask("fc_oneshot", pstr(p), hx(X))
+        d = cmp_model(resp, r, dst.bytes(r) if not L.F_isError(r) else b"", L)
+        if d:
+            res["fails"].append({"status": "corr_fail", "what": "corpus %s: %s" % (cid, d), "detail": {"corpus": cid}})
+        dst.free(); src.free()
+        return
+    p = {k: 0 for k in PREF_KEYS}; p["bsid"] = 3
+    p["autoFlush"] = 1 if cid.endswith("_autoflush") else 0
+    q = cprefs(p)
+    dst = Buf(1 << 20, fill=0xA5)
+    r = L.F_compressBegin(cs.ctx, dst.p, dst.n, byref(q))
+    res["evals"] += 1
+    resp = orc.ask("fc_begin", pstr(p), "n", "-")
+    d = cmp_model(resp, r, dst.bytes(r) if not L.F_isError(r) else b"", L)
+    if d:
+        res["fails"].append({"status": "corr_fail", "what": "corpus %s: compressBegin: %s" % (cid, d), "detail": {"corpus": cid}})
+    if not L.F_isError(r):
+        res["fails"].append({"status": "prop_fail", "what": "LZ4F_compressBegin accepts blockSizeID 3 (returns %d, header %s) instead of ERROR_maxBlockSize_invalid (F15 reverted?)"
+                             % (r, dst.bytes(r).hex()), "detail": {"corpus": cid}})
+        # what used to follow: three 50000-byte updates run past the 131070-byte tmpBuff (ASan) / produce an undecodable frame
+        for i in range(3):
+            src = Buf(0, data=X[:50000])
+            L.F_compressUpdate(cs.ctx, dst.p, dst.n, src.p, 50000, None)
+            src.free()
+    elif U64 - r != 2:
+        res["fails"].append({"status": "prop_fail", "what": "LZ4F_compressBegin with blockSizeID 3 answers %s" % L.F_getErrorName(r).decode(), "detail": {"corpus": cid}})
+    dst.free()
 
 def stray_ops(st, cs, rng, res, p):
     """calls outside a frame (context fresh or after compressEnd): cStage handling"""
@@ -830,8 +926,22 @@ def oneshot(st, cs, rng, res, which, tier):
     ret, out = cs.frame(pp, dic if usecd else None, X, fresh)
     res["evals"] += 1
     res["stats"]["oneshot_" + ("fresh" if fresh else ("cdict" if usecd else "ctx"))] += 1
+    req = p["bsid"] if pp is not None else 0
+    if not bsid_ok(req):
+        res["stats"]["oneshot_bad_bsid"] += 1
     if L.F_isError(ret):
+        if not bsid_ok(req) and U64 - ret == 2:
+            # refused, as it must be when the id is still invalid after LZ4F_optimalBSID; the model must refuse too
+            resp = orc.ask("fc_oneshot", pstr(pp), hx(X)) if fresh else orc.ask("fc_frame", pstr(pp), hx(dic) if usecd else "none", hx(X))
+            d = cmp_model(resp, ret, out, L)
+            if d:
+                res["fails"].append({"status": "corr_fail", "what": "compressFrame with blockSizeID %d: %s" % (req, d), "detail": {"prefs": pstr(pp), "n": n}})
+            return
         res["fails"].append({"status": "prop_fail", "what": "LZ4F_compressFrame%s fails with %s at the documented capacity" % ("" if fresh else "_usingCDict", L.F_getErrorName(ret).decode()),
+                             "detail": {"prefs": pstr(pp), "n": n}})
+        return
+    if not bsid_ok(req) and not bsid_ok(out[5] >> 4):
+        res["fails"].append({"status": "prop_fail", "what": "LZ4F_compressFrame%s returns a frame with BD byte %02x for the invalid blockSizeID %d (F15)" % ("" if fresh else "_usingCDict", out[5], req),
                              "detail": {"prefs": pstr(pp), "n": n}})
         return
     # effective preferences (as documented: bsid reduced to fit, contentSize corrected, single block => independent)
